@@ -794,7 +794,7 @@ func (fe *FnExec) doGo(fr *frame, st *State, x *ssa.Go) {
 	}
 	if fr.con != nil {
 		for _, g := range fr.con.Ghosts {
-			if g.After == site {
+			if ghostSiteMatches(g.After, site) {
 				ctx := fe.ctxFor(fr, st)
 				fe.assignLvalue(ctx, st, g.LHS, ctx.eval(g.RHS.E))
 			}
@@ -945,7 +945,7 @@ func (fe *FnExec) lookupAssumes(fr *frame, st *State, x *ssa.Lookup, v Val) {
 // verdict), so these obligations are not demanded: only those that hold on the tree the expectation lists were
 // written from are expected (like every other obligation) — from then on a change that swallows the error fails.
 func (fe *FnExec) errPropObligations(fr *frame, st *State, x *ssa.Return, rv []Val) {
-	if fr != fe.top || fe.quiet || len(rv) == 0 {
+	if fr != fe.top || fe.quiet || len(rv) == 0 || (fr.con != nil && fr.con.NoErrProp) {
 		return
 	}
 	sig := fr.fn.Signature
@@ -998,6 +998,39 @@ func (fe *FnExec) errPropObligations(fr *frame, st *State, x *ssa.Return, rv []V
 	}
 }
 
+// optFwdObligation: the option-forwarding family.  A function that takes variadic options and calls a function that
+// takes variadic options of the same type hands its own options on: the callee's variadic argument is the slice the
+// function was given.  Like the error-propagation family it is opt-in per member (only members that hold when the
+// expectation lists are written are expected): some callers extend or replace the options on purpose.  From then on
+// a change that drops the options, or adds one, at that call fails.
+func (fe *FnExec) optFwdObligation(fr *frame, st *State, in ssa.Instruction, site string, cc *ssa.CallCommon, full []Val) {
+	if fr != fe.top || fe.quiet || fr.inlined || site == "" || len(full) == 0 || (fr.con != nil && fr.con.Trusted) {
+		return
+	}
+	csig := cc.Signature()
+	fsig := fr.fn.Signature
+	if csig == nil || !csig.Variadic() || !fsig.Variadic() || len(fr.fn.Params) == 0 {
+		return
+	}
+	ct := csig.Params().At(csig.Params().Len() - 1).Type()
+	ft := fsig.Params().At(fsig.Params().Len() - 1).Type()
+	if !types.Identical(ct, ft) {
+		return
+	}
+	if sl, ok := ft.Underlying().(*types.Slice); !ok {
+		return
+	} else if _, isFn := sl.Elem().Underlying().(*types.Signature); !isFn {
+		return // only functional options (`...Option`), not `...interface{}` or `...string`
+	}
+	given, ok1 := fe.regs[fr.fn.Params[len(fr.fn.Params)-1]].(SliceV)
+	passed, ok2 := full[len(full)-1].(SliceV)
+	if !ok1 || !ok2 {
+		return
+	}
+	goal := tAnd(tEq(passed.Ref, given.Ref), tEq(passed.Len, given.Len))
+	fe.oblige(fr, "optfwd["+site+"]", nil, st.pc, goal, in.Pos(), "the options given to this function are the options handed to "+site)
+}
+
 // sendAsserts: channel contents are not modelled, but a contract may say what is sent: `call[send#k] assert l: e`
 // over arg0 (the channel) and arg1 (the value).
 func (fe *FnExec) sendAsserts(fr *frame, st *State, site string, ch, v Val, pos token.Pos) {
@@ -1021,7 +1054,7 @@ func (fe *FnExec) sendAsserts(fr *frame, st *State, site string, ch, v Val, pos 
 // list is written are expected).  Loops are cut at their heads, so an error swallowed inside a body would otherwise
 // never meet a return on the same path.
 func (fe *FnExec) errPropAtBackEdge(fr *frame, li *loopInfo, st *State) {
-	if fr != fe.top || fe.quiet || fr.inlined || (fr.con != nil && fr.con.Trusted) {
+	if fr != fe.top || fe.quiet || fr.inlined || (fr.con != nil && (fr.con.Trusted || fr.con.NoErrProp)) {
 		return
 	}
 	sig := fr.fn.Signature
